@@ -44,7 +44,7 @@ func (d *slidingWindowDetector) Check(seq uint64) (func() bool, bool) {
 	}
 
 	if seq <= d.latestSeq {
-		if d.latestSeq >= uint64(d.windowSize)+seq {
+		if d.latestSeq-seq >= uint64(d.windowSize) {
 			return nop, false
 		}
 		if d.mask.Bit(uint(d.latestSeq-seq)) != 0 {
